@@ -279,10 +279,10 @@ class Canon(ast.NodeTransformer):
         return node
 
     def visit_FunctionDef(self, node):
+        if _on("LOCALCONST"):
+            _local_constants(node)          # first: `x = x * factor` with a named constant factor then becomes `x *= 1.2`
         self.generic_visit(node)
         self._bodies(node)
-        if _on("LOCALCONST"):
-            _local_constants(node)
         if _on("TAIL"):
             node.body = _strip_tail(node.body, ast.Return) or [ast.copy_location(ast.Pass(), node)]
         return node
